@@ -88,7 +88,10 @@ def build_circuit(case):
     if 'hist' in case:
         itp = cm.Interp(Outcome(), want_trace=False, want_views=False,
                         want_unitary=False)
-        return itp.run(case['hist'])
+        c = itp.run(case['hist'])
+        # a circuit left with an empty cycle (C05's open finding) is outside
+        # the domain of this property
+        return None if itp.idle_cycle else c
     return specs.build_circuit(case['circ'])
 
 
